@@ -85,4 +85,131 @@ theorem as_bytes_spec (hin : EnvIn [a0, a1, a2, a3, a4] Field51.pre_as_bytes) :
   exact_mod_cast h
 
 end
+/-! ### list forms (arbitrary input list inside the contract) -/
+
+/-- `from_bytes` on any list satisfying the contract (= exactly 32 entries, each a byte) -/
+theorem from_bytes_spec_list (bs : List Nat) (hin : EnvIn bs Field51.pre_from_bytes) :
+    ∃ out, Dalek.Gen.Field51.from_bytes.evalC bs = some out ∧ Dalek.Gen.Field51.from_bytes.evalW bs = out ∧
+      EnvIn out limbs51 ∧ val51N out = leVal bs % 2 ^ 255 := by
+  have hl : bs.length = 32 := by
+    rw [envIn_length hin]; simp [Field51.pre_from_bytes, bytes, rep]
+  obtain ⟨b0, b1, b2, b3, b4, b5, b6, b7, b8, b9, b10, b11, b12, b13, b14, b15, b16, b17, b18, b19, b20, b21, b22, b23, b24, b25, b26, b27, b28, b29, b30, b31, rfl⟩ := list_eq_of_length_32 hl
+  exact from_bytes_spec b0 b1 b2 b3 b4 b5 b6 b7 b8 b9 b10 b11 b12 b13 b14 b15 b16 b17 b18 b19 b20 b21 b22 b23 b24 b25 b26 b27 b28 b29 b30 b31 hin
+
+/-- `as_bytes` on any list satisfying the contract (= exactly five limbs `< 2^54`) -/
+theorem as_bytes_spec_list (l : List Nat) (hin : EnvIn l Field51.pre_as_bytes) :
+    ∃ out, Dalek.Gen.Field51.as_bytes.evalC l = some out ∧ Dalek.Gen.Field51.as_bytes.evalW l = out ∧
+      EnvIn out (bytes 32) ∧ leVal out = val51N l % P := by
+  have hl : l.length = 5 := by
+    rw [envIn_length hin]; simp [Field51.pre_as_bytes, rep]
+  obtain ⟨a0, a1, a2, a3, a4, rfl⟩ := list_eq_of_length_5 hl
+  exact as_bytes_spec a0 a1 a2 a3 a4 hin
+
+/-- the output of `from_bytes` is inside the input contract of `as_bytes` (and of every other kernel) -/
+theorem limbs51_le_pre_as_bytes {l : List Nat} (h : EnvIn l limbs51) : EnvIn l Field51.pre_as_bytes :=
+  EnvIn_of_itvsLe h (by decide +kernel)
+
+/-! ### canonical encoding -/
+
+/-- **canonical encoding**: the output of `as_bytes` is exactly the 32 little-endian base-256 digits of the unique
+representative `< p` of the value; in particular it depends only on the value mod p. -/
+theorem as_bytes_canonical (l : List Nat) (hin : EnvIn l Field51.pre_as_bytes) :
+    Dalek.Gen.Field51.as_bytes.evalC l = some (natToLeN (val51N l % P) 32) ∧
+    Dalek.Gen.Field51.as_bytes.evalW l = natToLeN (val51N l % P) 32 := by
+  obtain ⟨out, hC, hW, hb, hv⟩ := as_bytes_spec_list l hin
+  obtain ⟨hlen, hbytes⟩ := (envIn_bytes 32 out).mp hb
+  have : out = natToLeN (val51N l % P) 32 := eq_natToLeN_of_leVal hlen hbytes hv
+  subst this
+  exact ⟨hC, hW⟩
+
+/-- the encoded integer is below `p` -/
+theorem as_bytes_lt (l : List Nat) (hin : EnvIn l Field51.pre_as_bytes) :
+    ∃ out, Dalek.Gen.Field51.as_bytes.evalC l = some out ∧ leVal out < P := by
+  obtain ⟨out, hC, _, _, hv⟩ := as_bytes_spec_list l hin
+  exact ⟨out, hC, by rw [hv]; exact Nat.mod_lt _ (by norm_num [P])⟩
+
+/-- bit 255 of the encoding is clear -/
+theorem as_bytes_top_bit (l : List Nat) (hin : EnvIn l Field51.pre_as_bytes) :
+    ∃ out, Dalek.Gen.Field51.as_bytes.evalC l = some out ∧ out.getD 31 0 < 128 := by
+  refine ⟨_, (as_bytes_canonical l hin).1, ?_⟩
+  rw [natToLeN_getD 32 _ 31 (by norm_num)]
+  have : val51N l % P < P := Nat.mod_lt _ (by norm_num [P])
+  generalize val51N l % P = v at this ⊢
+  simp only [P] at this
+  omega
+
+/-- **uniqueness**: two limb vectors (inside the contract) encode identically iff they represent the same element of
+`ZMod p` -/
+theorem as_bytes_unique (l l' : List Nat) (hin : EnvIn l Field51.pre_as_bytes) (hin' : EnvIn l' Field51.pre_as_bytes) :
+    Dalek.Gen.Field51.as_bytes.evalC l = Dalek.Gen.Field51.as_bytes.evalC l' ↔ Field51.val51 l = Field51.val51 l' := by
+  rw [(as_bytes_canonical l hin).1, (as_bytes_canonical l' hin').1, val51_eq, val51_eq,
+    ZMod.natCast_eq_natCast_iff']
+  constructor
+  · intro h
+    have h2 := congrArg leVal (Option.some.inj h)
+    rw [leVal_natToLeN, leVal_natToLeN] at h2
+    have hp : P < 256 ^ 32 := by norm_num [P]
+    have h1 : val51N l % P < P := Nat.mod_lt _ (by norm_num [P])
+    have h1' : val51N l' % P < P := Nat.mod_lt _ (by norm_num [P])
+    rwa [Nat.mod_eq_of_lt (lt_trans h1 hp), Nat.mod_eq_of_lt (lt_trans h1' hp)] at h2
+  · intro h; rw [h]
+
+/-- the same for the release build -/
+theorem as_bytes_unique_release (l l' : List Nat) (hin : EnvIn l Field51.pre_as_bytes)
+    (hin' : EnvIn l' Field51.pre_as_bytes) :
+    Dalek.Gen.Field51.as_bytes.evalW l = Dalek.Gen.Field51.as_bytes.evalW l' ↔ Field51.val51 l = Field51.val51 l' := by
+  rw [← as_bytes_unique l l' hin hin', (as_bytes_canonical l hin).1, (as_bytes_canonical l' hin').1,
+    (as_bytes_canonical l hin).2, (as_bytes_canonical l' hin').2]
+  exact ⟨fun h => by rw [h], fun h => Option.some.inj h⟩
+
+/-- **round trip** `as_bytes (from_bytes b)`: the canonical encoding of `LE(b) mod 2^255` reduced mod p -/
+theorem as_bytes_from_bytes (bs : List Nat) (hin : EnvIn bs Field51.pre_from_bytes) :
+    ∃ limbs, Dalek.Gen.Field51.from_bytes.evalC bs = some limbs ∧ Dalek.Gen.Field51.from_bytes.evalW bs = limbs ∧
+      Dalek.Gen.Field51.as_bytes.evalC limbs = some (natToLeN (leVal bs % 2 ^ 255 % P) 32) ∧
+      Dalek.Gen.Field51.as_bytes.evalW limbs = natToLeN (leVal bs % 2 ^ 255 % P) 32 := by
+  obtain ⟨limbs, hC, hW, hb, hv⟩ := from_bytes_spec_list bs hin
+  have h := as_bytes_canonical limbs (limbs51_le_pre_as_bytes hb)
+  rw [hv] at h
+  exact ⟨limbs, hC, hW, h.1, h.2⟩
+
+/-- decoding a canonical encoding (an integer `< p`) and re-encoding gives the same bytes back -/
+theorem as_bytes_from_bytes_canonical (bs : List Nat) (hin : EnvIn bs Field51.pre_from_bytes) (hc : leVal bs < P) :
+    ∃ limbs, Dalek.Gen.Field51.from_bytes.evalC bs = some limbs ∧
+      Dalek.Gen.Field51.as_bytes.evalC limbs = some bs := by
+  obtain ⟨limbs, hC, _, h, _⟩ := as_bytes_from_bytes bs hin
+  refine ⟨limbs, hC, ?_⟩
+  rw [h]
+  obtain ⟨hlen, hbytes⟩ := (envIn_bytes 32 bs).mp hin
+  have hp : P < 2 ^ 255 := by norm_num [P]
+  have e1 : leVal bs % 2 ^ 255 = leVal bs := Nat.mod_eq_of_lt (lt_trans hc hp)
+  rw [e1, Nat.mod_eq_of_lt hc, ← hlen, natToLeN_leVal bs hbytes]
+
+/-! ### link to the executable specification `Dalek.Spec.Field` (byte strings as `List UInt8`) -/
+
+/-- `as_bytes` computes `Dalek.Spec.feToBytes` of the value of the limbs -/
+theorem as_bytes_spec' (l : List Nat) (hin : EnvIn l Field51.pre_as_bytes) :
+    ∃ out, Dalek.Gen.Field51.as_bytes.evalC l = some out ∧ Dalek.Gen.Field51.as_bytes.evalW l = out ∧
+      out.map UInt8.ofNat = Dalek.Spec.feToBytes (val51N l) := by
+  refine ⟨_, (as_bytes_canonical l hin).1, (as_bytes_canonical l hin).2, ?_⟩
+  rw [map_ofNat_natToLeN]; rfl
+
+/-- `from_bytes` computes `Dalek.Spec.feFromBytes` (the limbs even hold the unreduced 255-bit integer) -/
+theorem from_bytes_spec' (bs : List UInt8) (hlen : bs.length = 32) :
+    ∃ out, Dalek.Gen.Field51.from_bytes.evalC (bs.map UInt8.toNat) = some out ∧
+      Dalek.Gen.Field51.from_bytes.evalW (bs.map UInt8.toNat) = out ∧ EnvIn out limbs51 ∧
+      val51N out = Dalek.Spec.leToNat bs % 2 ^ 255 ∧ val51N out % P = Dalek.Spec.feFromBytes bs := by
+  have hin : EnvIn (bs.map UInt8.toNat) Field51.pre_from_bytes :=
+    (envIn_bytes 32 _).mpr ⟨by simpa using hlen, allBytes_map_toNat bs⟩
+  obtain ⟨out, hC, hW, hb, hv⟩ := from_bytes_spec_list _ hin
+  rw [leVal_map_toNat] at hv
+  exact ⟨out, hC, hW, hb, hv, by rw [hv]; rfl⟩
+
+/-! ### non-vacuity -/
+
+example : EnvIn (List.replicate 32 255) Field51.pre_from_bytes := by decide +kernel
+example : EnvIn (List.replicate 5 (2 ^ 54 - 1)) Field51.pre_as_bytes := by decide +kernel
+/-- a non-canonical input: `p + 1` (limbs of `2^255 - 18`) encodes as `1` -/
+example : Dalek.Gen.Field51.as_bytes.evalC [2 ^ 51 - 18, 2 ^ 51 - 1, 2 ^ 51 - 1, 2 ^ 51 - 1, 2 ^ 51 - 1]
+    = some (natToLeN 1 32) := by decide +kernel
+
 end Dalek.Props.C01.Bytes51
